@@ -233,7 +233,7 @@ def handle : Handler
       let st := diffusion g sc fl a k tol
       some s!"ok {showF32List st.scores} {showF32List st.fluid}") "bad-args"
   /- model: push kernel as written, exact arithmetic; `deg` = the int32-cast weighted degrees -/
-  | "c04.push", [n, ip, ix, dt, deg, a, seeds, tol] => some <| Option.getD (do
+  | "c04.push", [n, ip, ix, dt, deg, a, seeds, tol, ord] => some <| Option.getD (do
       let g ← graphRat? n ip ix dt
       let deg ← ratList? deg
       let a ← rat? a
@@ -250,7 +250,12 @@ def handle : Handler
       -- least gap between two different initial residuals (order of the work-list)
       let gaps := resid.flatMap fun x => resid.filterMap fun y => if x == y then none else some (Rat.abs (x - y))
       let mg := gaps.foldl minR mg
-      match pushPagerank g rev deg seeds a tol fuel with
+      -- the order returned by np.argsort(-residuals): a parameter with the contract "sorting permutation"
+      let order ← if ord == "_" then some (argsortDesc resid) else natList? ord
+      let isPerm := order.length == g.n && (List.range g.n).all (fun v => order.contains v)
+      let sorted := (order.zip (order.drop 1)).all fun (p, q) => decide (resid.getD q 0 ≤ resid.getD p 0)
+      if !(isPerm && sorted) then some "contract-unmet argsort" else
+      match pushPagerankOrd g rev deg seeds a tol fuel order with
       | none => some "fuel"
       | some r => some s!"ok {showRatList r} {showRat mg}") "bad-args"
   /- Katz: model (Horner on the boolean transposed adjacency), exact arithmetic -/
